@@ -102,6 +102,7 @@ struct Cx<'tcx> {
     type_ix: HashMap<Ty<'tcx>, usize>,
     defs: Vec<J>,
     def_ix: HashMap<DefId, usize>,
+    workspace: Vec<String>,
 }
 
 impl<'tcx> Cx<'tcx> {
@@ -111,6 +112,23 @@ impl<'tcx> Cx<'tcx> {
     }
 
     fn path_string(&self, did: DefId) -> String {
+        // Items of the analysed workspace get their *definition* path (re-exports would otherwise
+        // print differently from different crates); impl items and closures keep the display form.
+        let kname = self.tcx.crate_name(did.krate).to_string();
+        if self.workspace.iter().any(|w| *w == kname) {
+            let dp = self.tcx.def_path(did);
+            let plain = dp.data.iter().all(|d| {
+                matches!(
+                    d.data,
+                    rustc_hir::definitions::DefPathData::TypeNs(_)
+                        | rustc_hir::definitions::DefPathData::ValueNs(_)
+                        | rustc_hir::definitions::DefPathData::Ctor
+                )
+            });
+            if plain {
+                return format!("{}{}", kname, dp.to_string_no_crate_verbose());
+            }
+        }
         let s = ty::print::with_no_trimmed_paths!(self.tcx.def_path_str(did));
         if did.is_local() {
             format!("{}::{}", self.tcx.crate_name(LOCAL_CRATE), s)
@@ -765,6 +783,15 @@ impl<'tcx> Cx<'tcx> {
         o.push(("blocks", J::Arr(blocks)));
         J::Obj(o)
     }
+
+    fn promoted(&mut self, did: DefId, body: &Body<'tcx>) -> J {
+        let locals: Vec<J> = body.local_decls.iter().map(|d| jn(self.ty(d.ty))).collect();
+        let mut blocks = vec![];
+        for bb in body.basic_blocks.iter() {
+            blocks.push(self.block(did, body, bb));
+        }
+        J::Obj(vec![("locals", J::Arr(locals)), ("blocks", J::Arr(blocks))])
+    }
 }
 
 fn hex(b: &[u8]) -> String {
@@ -798,6 +825,12 @@ impl rustc_driver::Callbacks for Cb {
             type_ix: HashMap::new(),
             defs: vec![],
             def_ix: HashMap::new(),
+            workspace: std::env::var("ZKV_WORKSPACE_CRATES")
+                .unwrap_or_default()
+                .split(',')
+                .filter(|s| !s.is_empty())
+                .map(|s| s.to_string())
+                .collect(),
         };
         let mut adts = vec![];
         let mut impls = vec![];
@@ -927,7 +960,13 @@ impl rustc_driver::Callbacks for Cb {
                 continue;
             }
             let body = tcx.optimized_mir(did);
-            bodies.push(cx.body(did, body));
+            let mut bj = cx.body(did, body);
+            let proms = tcx.promoted_mir(did);
+            let pv: Vec<J> = proms.iter().map(|pb| cx.promoted(did, pb)).collect();
+            if let J::Obj(ref mut o) = bj {
+                o.push(("promoted", J::Arr(pv)));
+            }
+            bodies.push(bj);
         }
         let out = J::Obj(vec![
             ("crate", js(crate_name.clone())),
